@@ -188,6 +188,9 @@ type docOpts struct {
 	future   int64 // ns
 	req      int64
 	forInval bool // no pad, no outer blanks: base text of an invalid line
+	// impossible: a calendar date that does not exist (30 February ...) spelled in the ES
+	// format, which a normalising parser would read as an instant shortly before the request
+	impossible string
 	maxLen   int  // forInval: longest admissible line (0 = any)
 }
 
@@ -309,8 +312,13 @@ func genDoc(t *rapid.T, serial int, o docOpts) Line {
 		case "tf":
 			w.str(s.name)
 			w.structural(':')
-			if rapid.IntRange(0, 3).Draw(t, "tfbad") == 3 {
-				w.b = append(w.b, rapid.SampledFrom(badTimes).Draw(t, "badtime")...)
+			if bad := rapid.IntRange(0, 3).Draw(t, "tfbad"); bad == 3 || (bad == 2 && o.impossible != "") {
+				if o.impossible != "" && bad == 2 {
+					w.b = append(w.b, strconv.Quote(o.impossible)...)
+					w.flag("time-impossible-calendar-date")
+				} else {
+					w.b = append(w.b, rapid.SampledFrom(badTimes).Draw(t, "badtime")...)
+				}
 				w.flag("time-unparsable")
 				break
 			}
@@ -527,6 +535,16 @@ func genDirect(t *rapid.T) Case {
 		case 2:
 			q.ReqNano += rapid.Int64Range(0, 999_999_999).Draw(t, "reqns")
 		}
+		impossible := ""
+		if rapid.IntRange(0, 7).Draw(t, "impossible") == 7 {
+			// the request arrives ten minutes after the start of a month that follows a shorter one
+			m := rapid.SampledFrom([][3]int{{2025, 3, 29}, {2024, 3, 30}, {2025, 5, 31}, {2026, 3, 31}, {2025, 10, 31}, {2100, 3, 29}}).Draw(t, "monthstart")
+			start := time.Date(m[0], time.Month(m[1]), 1, 0, 10, 0, 0, time.UTC)
+			q.ReqNano = start.UnixNano() + rapid.Int64Range(0, 999_999_999).Draw(t, "reqns2")
+			back := rapid.IntRange(1, 500).Draw(t, "secondsback")
+			at := start.Add(-time.Duration(back) * time.Second) // still in the new month: 00:01:40 .. 00:09:59
+			impossible = fmt.Sprintf("%04d-%02d-%02d %02d:%02d:%02d", m[0], m[1]-1, m[2], at.Hour(), at.Minute(), at.Second())
+		}
 		q.Reuse = rapid.Bool().Draw(t, "reuse")
 		nl := rapid.IntRange(1, 8).Draw(t, "nlines")
 		invalidAt := -1
@@ -535,7 +553,7 @@ func genDirect(t *rapid.T) Case {
 		}
 		for i := 0; i < nl; i++ {
 			serial++
-			o := docOpts{drift: c.DriftMs * 1e6, future: c.FutureMs * 1e6, req: q.ReqNano}
+			o := docOpts{drift: c.DriftMs * 1e6, future: c.FutureMs * 1e6, req: q.ReqNano, impossible: impossible}
 			var l Line
 			kind := rapid.IntRange(0, 19).Draw(t, "linekind")
 			switch {
